@@ -29,6 +29,7 @@ def check_history(history, completed=True):
     execs = [(i, e) for i, e in enumerate(history) if e[0] == "EXEC-ATTEMPT"]
     outputs = {e[1] for _i, e in execs}
     releases_before_last_stmt = 0
+    noop_releases = 0
     last_exec_idx = execs[-1][0] if execs else -1
     closed = False
     for i, e in enumerate(history):
@@ -60,7 +61,7 @@ def check_history(history, completed=True):
                 v.append(("normalize-after-reader", t, "input canonicalised after %s already read it" % later))
         elif kind == "EXEC-ATTEMPT":
             loading = None
-            reads = extra or []
+            reads = [r for r in (extra or []) if r != "?"]   # '?': SQL DuckDB's parser rejects - reads unknown
             missing = [r for r in reads if r not in live]
             if missing:
                 v.append(("statement-reads-unmaterialised", t, "statement producing %s reads %s which is not loaded/produced or already released" % (t, missing)))
@@ -88,6 +89,11 @@ def check_history(history, completed=True):
                 loading = None
                 continue
             if t not in live:
+                if t not in outputs and t not in loads:
+                    # e.g. an input *scalar* (inlined into the SQL, never a table): the scheduled
+                    # DROP ... IF EXISTS is a no-op, not a double release
+                    noop_releases += 1
+                    continue
                 v.append(("release-of-unmaterialised", t, "DROP of %s which is not materialised (double release, or release before production)" % t))
             else:
                 live.discard(t)
@@ -110,5 +116,5 @@ def check_history(history, completed=True):
             if views:
                 v.append(("temp-view-left-registered", sorted(views)[0], ""))
     stats = {"loads": len(loads), "statements": len([e for e in history if e[0] == "EXEC"]), "releases_before_last_statement": releases_before_last_stmt,
-             "closed": closed}
+             "closed": closed, "noop_releases_of_never_materialised_names": noop_releases}
     return v, stats
